@@ -113,10 +113,10 @@ SPECS["C26"] = {
 }
 
 SPECS["C25"] = {
-    "parts": [{"engine": "kani", "group": "ul", "select": r"^c25_", "mem_gb": 12, "timeout": {"quick": 1500, "thorough": 3000}, "thorough_only": r"2pdv_last_empty"},
+    "parts": [{"engine": "kani", "group": "ul", "select": r"^c25_", "mem_gb": 12, "timeout": {"quick": 1500, "thorough": 3000}},
               {"engine": "m", "module": "c25"}, {"engine": "m", "module": "c25rq"}],
     "functions": ["dicom_ul::pdu::writer::write_pdu (+ write_chunk_u32)", "dicom_ul::pdu::reader::read_pdu"],
-    "bounds": "A-RELEASE-RQ/RP, P-DATA-TF with one PDV of 2 symbolic bytes or an empty payload (context id, type, last flag symbolic), unknown PDU type; thorough tier: two PDVs with the last one empty (flags symbolic); "
+    "bounds": "A-RELEASE-RQ/RP, P-DATA-TF with one PDV of 2 symbolic bytes or an empty payload (context id, type, last flag symbolic), unknown PDU type; "
               "strict prefixes of concrete length per instance; item length fields: write_chunk_u16/u32 for all content lengths <= 2^20 / 2^33 (Engine M); "
               "A-ASSOCIATE-RQ (1 proposed context, 2 transfer syntaxes) and -AC (2 results) with the 7 user sub-item kinds, UID lengths 1..3 per instance, symbolic digits / bytes / flags (Engine M, write side)",
     "outside": "strict mode (read_pdu with a symbolic length field: no verdict in 1500 s), A-ABORT and A-ASSOCIATE-RJ (bytes::Bytes pointer tagging defeats CBMC's pointer model: spurious failures that do not replay), reading A-ASSOCIATE-RQ/AC back (string building in CBMC), UIDs longer than 3 characters and other item multiplicities (the shape is concrete per instance), more than one PDV",
